@@ -68,7 +68,7 @@ theorem gen_append_array (M : Mem) (A B : Arr) (r o : RArr) (h : Rep M A r) (ho 
       rw [hc] at hr1
       cases xs with
       | nil =>
-        simp only [hr1.2.1, List.length_nil, padd, if_true, SeqArr.appendArray_loop1, plt, Bool.false_eq_true, if_false,
+        simp only [hr1.2.1, List.length_nil, padd, if_true, SeqArr.appendArray_loop1, plt, pne, ne_eq, not_true_eq_false, decide_false, Bool.false_eq_true, if_false,
           List.isEmpty_nil]
         have : ({ A1 with end_ := none } : Arr) = A1 := by cases A1; simp_all
         rw [this]
@@ -90,7 +90,7 @@ theorem gen_append_array (M : Mem) (A B : Arr) (r o : RArr) (h : Rep M A r) (ho 
           have := hon.1; rw [hB.2.2] at this
           exact List.eq_nil_of_length_eq_zero this.symm
         subst hx0
-        simp only [List.length_nil, Nat.add_zero, SeqArr.appendArray_loop1, plt_off, Nat.lt_irrefl, decide_false,
+        simp only [List.length_nil, Nat.add_zero, SeqArr.appendArray_loop1, plt_off, pne_off, ne_eq, not_true_eq_false, Nat.lt_irrefl, decide_false,
           Bool.false_eq_true, if_false, fillFrom, Sim]
         have : ({ A1 with end_ := some (b1, r1.n) } : Arr) = A1 := by cases A1; simp_all
         rw [this]
@@ -135,7 +135,7 @@ theorem gen_append_array_self (M : Mem) (A : Arr) (r : RArr) (h : Rep M A r) (fu
     | none =>
       rw [hc] at hr1
       have hn0 : r.n = 0 := by rw [← hn]; exact hr1.2.2
-      simp only [hr1.2.1, hr1.1, hn0, padd, if_true, SeqArr.appendArray_loop1, plt, Bool.false_eq_true, if_false]
+      simp only [hr1.2.1, hr1.1, hn0, padd, if_true, SeqArr.appendArray_loop1, plt, pne, ne_eq, not_true_eq_false, decide_false, Bool.false_eq_true, if_false]
       have : ({ begin := none, end_ := none, cap := A1.cap } : Arr) = A1 := by cases A1; simp_all
       rw [this]
       exact ⟨hrep1', hbrk, hfr, hown⟩
